@@ -49,11 +49,11 @@ TRACE_CFG = cfg(steps=0, faults=(), spec='TSpec').replace('VIEW view\n', '') + '
 def model_jobs(tier):
     """(name, cfg kwargs, expectation, emit file or None, workers, simulate)"""
     q = tier == 'quick'
-    deep = 5 if q else 6
+    deep = 5 if q else 7
     jobs = []
+    jobs.append(('required mechanism, one key, <=%d steps' % deep,
+                 dict(world='split', devs=[], steps=deep, focus=True, inv=('Transparent', 'TypeOK')), 'holds', None, 2, None))
     for w in ('plain', 'split'):
-        jobs.append(('required mechanism, %s, one key, <=%d steps' % (w, deep),
-                     dict(world=w, devs=[], steps=deep, focus=True, inv=('Transparent', 'TypeOK')), 'holds', None, 2, None))
         jobs.append(('mechanism of compiler.py, %s, one key, <=%d steps' % (w, deep),
                      dict(world=w, steps=deep, focus=True, emit='all', inv=('TransparentUpToDevs', 'KillHarmless', 'TypeOK', 'Emit')),
                      'holds', 'gen-focus-%s.ndjson' % w, 2, None))
@@ -76,10 +76,10 @@ def model_jobs(tier):
                      dict(world='split', steps=5, focus=True, emit='all', fl='FL4', adbcs=(0, 1, 2), codecs=('ber', 'der', 'uper'),
                           inv=('TransparentUpToDevs', 'KillHarmless', 'TypeOK', 'Emit')), 'holds', 'gen-focus-wide.ndjson', 4, None))
     # long unfocused histories by simulation
-    n, d = (40, 8) if q else (600, 12)
-    for w in ('plain', 'split'):
+    n, d = (50, 8) if q else (1500, 12)
+    for w in (('split',) if q else ('plain', 'split', 'broken')):
         jobs.append(('simulation of %d histories of %d steps, %s' % (n, d, w),
-                     dict(world=w, steps=d, emit='final', fl='FL4', adbcs=(0, 1, 2),
+                     dict(world=w, steps=d, emit='final', fl='FL4', adbcs=(0, 1, 2), grain='sim',
                           inv=('TransparentUpToDevs', 'KillHarmless', 'Emit')), 'holds', 'gen-sim-%s.ndjson' % w, 1,
                      ('num=%d' % n, d + 1)))
     # sensitivity of the invariant: every deviation and every mutant mechanism must violate it
@@ -114,7 +114,7 @@ def run_models(run, tier):
                           seed=run.seed if sim else None)
         return job, res, out
     results = []
-    with ThreadPoolExecutor(max_workers=5) as ex:
+    with ThreadPoolExecutor(max_workers=int(os.environ.get('VERIF_TLC_PARALLEL', '6'))) as ex:
         for job, res, out in ex.map(one, jobs):
             name, kw, expect, emit, workers, sim = job
             violated = 'is violated' in res['error']
@@ -332,8 +332,8 @@ def account(run, reports, idx, shards):
     stats['distinct_kill_points'] = len(stats.pop('kill_points'))
     stats['distinct_damage_points'] = len(stats.pop('damage_points'))
     skipped = 0
-    for s in shards:
-        mp = s + '.maps'
+    for k in range(pl.NPROC):
+        mp = run.path('trace.%d.ndjson.maps' % k)
         if os.path.exists(mp):
             with open(mp) as f:
                 skipped += json.load(f).get('skipped', 0)
@@ -386,7 +386,7 @@ def c17(tier, seed):
         pl.write_cases(order, cpath)
         run.notes['histories_selected'] = len(order)
         run.notes['sweeps'] = len(heavy)
-        deadline = run.t0 + (165 if q else 1500)
+        deadline = time.time() + (100 if q else 1300)
         shards, reports, idx = judge(run, cpath, deadline)
         account(run, reports, idx, shards)
         run.assumptions = [
